@@ -1,0 +1,458 @@
+//go:build verif
+
+// Contracts for the lvc verifier (comment-only file, compiled only with -tags verif).
+// See /verif/DESIGN.md.  Arithmetic in contracts is over mathematical integers; W = 2^64.
+
+package ring
+
+//@ spec mredpre(q, c) = 2 < q && q < 1<<63 && (q*c) % W == 1
+
+//@ func MRed
+//@   property C01
+//@   requires mredpre(q, mredconstant) && x*y < q*W
+//@   let mlo = (x*y) % W
+//@   let t = (mlo*mredconstant) % W
+//@   let K = ite((x*y)/W >= (t*q)/W, 0, W) - t
+//@   ensures r < q
+//@   ensures cong(r*W, x*y, q) by mont_cancel(mlo, mredconstant, q); cong_intro(r*W, x*y, K, q)
+
+//@ func MRedLazy
+//@   property C01
+//@   requires mredpre(q, mredconstant) && x*y < q*W
+//@   let mlo = (x*y) % W
+//@   let t = (mlo*mredconstant) % W
+//@   ensures 0 < r && r < 2*q
+//@   ensures cong(r*W, x*y, q) by mont_cancel(mlo, mredconstant, q); cong_intro(r*W, x*y, W - t, q)
+
+//@ func CRed
+//@   property C01
+//@   requires a < 2*q
+//@   ensures result < q
+//@   ensures result == ite(a >= q, a - q, a)
+
+// bredpre: bredconstant = [uhi, ulo] with uhi*2^64+ulo = floor(2^128/q)
+//@ spec bredpre(q, b0, b1) = 0 < q && q < 1<<63 && (b0*W + b1)*q <= W*W && W*W < (b0*W + b1 + 1)*q
+
+//@ func BRedAdd
+//@   property C01
+//@   requires bredpre(q, bredconstant[0], bredconstant[1])
+//@   let uhi = bredconstant[0]
+//@   let mhi = (a*uhi)/W
+//@   lemma mono_le(mhi*W, a*uhi, q); mono_le(uhi*q, W, a); mono_lt(a*uhi, (mhi+1)*W, q); mono_le(W-q, uhi*q, a)
+//@   ensures r < q
+//@   ensures cong(r, a, q) by cong_intro(r, a, 0 - mhi - ite(a - mhi*q >= q, 1, 0), q)
+
+//@ func BRedAddLazy
+//@   property C01
+//@   requires bredpre(q, bredconstant[0], bredconstant[1])
+//@   let uhi = bredconstant[0]
+//@   let mhi = (x*uhi)/W
+//@   lemma mono_le(mhi*W, x*uhi, q); mono_le(uhi*q, W, x); mono_lt(x*uhi, (mhi+1)*W, q); mono_le(W-q, uhi*q, x)
+//@   ensures result < 2*q
+//@   ensures cong(result, x, q) by cong_intro(result, x, 0 - mhi, q)
+
+//@ func BRed
+//@   property C01
+//@   requires bredpre(q, bredconstant[0], bredconstant[1])
+//@   let b0 = bredconstant[0]
+//@   let b1 = bredconstant[1]
+//@   let P = x*y
+//@   let mhi = P/W
+//@   let mlo = P%W
+//@   let s0 = ((mlo*b0)%W + (mlo*b1)/W) % W
+//@   let c1 = ((mlo*b0)%W + (mlo*b1)/W) / W
+//@   let c2 = ((mhi*b1)%W + s0) / W
+//@   let S = mhi*b0 + (mlo*b0)/W + c1 + (mhi*b1)/W + c2
+//@   let rem = (((mhi*b1)%W + s0) % W)*W + (mlo*b1)%W
+//@   cut P*(b0*W + b1) == S*W*W + rem && 0 <= rem && rem < W*W by mulhyp(P, mhi*W + mlo, b0*W + b1)
+//@   cut 0 <= P - S*q && P - S*q < 2*q by barrett_w(P, b0*W + b1, q, S, rem)
+//@   cut ver(r, 6) == S % W
+//@   cut ver(r, 7) == P - S*q by mulhyp(ver(r, 6), S - W*(S/W), q)
+//@   ensures r < q
+//@   ensures cong(r, x*y, q) by cong_intro(r, x*y, 0 - S - ite(P - S*q >= q, 1, 0), q)
+
+//@ func BRedLazy
+//@   property C01
+//@   requires bredpre(q, bredconstant[0], bredconstant[1])
+//@   let b0 = bredconstant[0]
+//@   let b1 = bredconstant[1]
+//@   let P = x*y
+//@   let mhi = P/W
+//@   let mlo = P%W
+//@   let s0 = ((mlo*b0)%W + (mlo*b1)/W) % W
+//@   let c1 = ((mlo*b0)%W + (mlo*b1)/W) / W
+//@   let c2 = ((mhi*b1)%W + s0) / W
+//@   let S = mhi*b0 + (mlo*b0)/W + c1 + (mhi*b1)/W + c2
+//@   let rem = (((mhi*b1)%W + s0) % W)*W + (mlo*b1)%W
+//@   cut P*(b0*W + b1) == S*W*W + rem && 0 <= rem && rem < W*W by mulhyp(P, mhi*W + mlo, b0*W + b1)
+//@   cut 0 <= P - S*q && P - S*q < 2*q by barrett_w(P, b0*W + b1, q, S, rem)
+//@   cut ver(r, 6) == S % W
+//@   cut ver(r, 7) == P - S*q by mulhyp(ver(r, 6), S - W*(S/W), q)
+//@   ensures r < 2*q
+//@   ensures cong(r, x*y, q) by cong_intro(r, x*y, 0 - S, q)
+
+//@ func MForm
+//@   property C01
+//@   requires bredpre(q, bredconstant[0], bredconstant[1])
+//@   let b0 = bredconstant[0]
+//@   let b1 = bredconstant[1]
+//@   let S = a*b0 + (a*b1)/W
+//@   cut 0 <= a*W - S*q && a*W - S*q < 2*q by barrett_w(a*W, b0*W + b1, q, S, ((a*b1)%W)*W)
+//@   cut val("a*bredconstant[0] + mhi") == S % W
+//@   cut ver(r, 2) == a*W - S*q by mulhyp(val("a*bredconstant[0] + mhi"), S - W*(S/W), q)
+//@   ensures r < q
+//@   ensures cong(r, a*W, q) by cong_intro(r, a*W, 0 - S - ite(a*W - S*q >= q, 1, 0), q)
+
+//@ func MFormLazy
+//@   property C01
+//@   requires bredpre(q, bredconstant[0], bredconstant[1])
+//@   let b0 = bredconstant[0]
+//@   let b1 = bredconstant[1]
+//@   let S = a*b0 + (a*b1)/W
+//@   cut 0 <= a*W - S*q && a*W - S*q < 2*q by barrett_w(a*W, b0*W + b1, q, S, ((a*b1)%W)*W)
+//@   cut val("a*bredconstant[0] + mhi") == S % W
+//@   cut ver(r, 2) == a*W - S*q by mulhyp(val("a*bredconstant[0] + mhi"), S - W*(S/W), q)
+//@   ensures r < 2*q
+//@   ensures cong(r, a*W, q) by cong_intro(r, a*W, 0 - S, q)
+
+//@ func IMForm
+//@   property C01
+//@   requires mredpre(q, mredconstant)
+//@   let t = (a*mredconstant) % W
+//@   ensures r < q
+//@   ensures cong(r*W, a, q) by mont_cancel(a, mredconstant, q); cong_intro(r*W, a, ite((t*q)/W == 0, 0, W) - t, q)
+
+//@ func IMFormLazy
+//@   property C01
+//@   requires mredpre(q, mredconstant)
+//@   let t = (a*mredconstant) % W
+//@   ensures 0 < r && r <= q
+//@   ensures cong(r*W, a, q) by mont_cancel(a, mredconstant, q); cong_intro(r*W, a, W - t, q)
+
+// ---- 8-lane vector kernels (ring/vec_ops.go) ----
+
+//@ func addvec
+//@   property C01
+//@   veckernel out=p3 in=p1,p2 idx=j
+//@   requires 0 < modulus && modulus < 1<<63
+//@   lanepre p1[k] + p2[k] < 2*modulus
+//@   lane p3[k] == CRed(old(p1[k]) + old(p2[k]), modulus)
+//@   meaning p3[k] < modulus && cong(p3[k], old(p1[k]) + old(p2[k]), modulus) by cong_intro(p3[k], old(p1[k]) + old(p2[k]), ite(old(p1[k]) + old(p2[k]) >= modulus, 0-1, 0), modulus)
+
+//@ func addlazyvec
+//@   property C01
+//@   veckernel out=p3 in=p1,p2 idx=j
+//@   lanepre p1[k] + p2[k] < W
+//@   lane p3[k] == old(p1[k]) + old(p2[k])
+
+//@ func subvec
+//@   property C01
+//@   veckernel out=p3 in=p1,p2 idx=j
+//@   requires 0 < modulus && modulus < 1<<63
+//@   let x = old(p1[k])
+//@   let y = old(p2[k])
+//@   lanepre p2[k] <= p1[k] + modulus && p1[k] < p2[k] + modulus && p1[k] + modulus < W
+//@   lane p3[k] == CRed(old(p1[k]) + modulus - old(p2[k]), modulus)
+//@   meaning p3[k] < modulus && cong(p3[k], x - y, modulus) by cong_intro(p3[k], x - y, ite(x + modulus - y >= modulus, 0, 1), modulus)
+
+//@ func sublazyvec
+//@   property C01
+//@   veckernel out=p3 in=p1,p2 idx=j
+//@   let x = old(p1[k])
+//@   let y = old(p2[k])
+//@   lanepre p2[k] <= p1[k] + modulus && p1[k] + modulus - p2[k] < W
+//@   lane p3[k] == old(p1[k]) + modulus - old(p2[k])
+//@   meaning cong(p3[k], x - y, modulus) by cong_intro(p3[k], x - y, 1, modulus)
+
+//@ func negvec
+//@   property C01
+//@   veckernel out=p2 in=p1 idx=j
+//@   lanepre p1[k] <= modulus
+//@   lane p2[k] == modulus - old(p1[k])
+//@   meaning p2[k] <= modulus && cong(p2[k], 0 - old(p1[k]), modulus) by cong_intro(p2[k], 0 - old(p1[k]), 1, modulus)
+
+//@ func reducevec
+//@   property C01
+//@   veckernel out=p2 in=p1 idx=j
+//@   requires bredpre(modulus, bredconstant[0], bredconstant[1])
+//@   lane p2[k] == BRedAdd(old(p1[k]), modulus, bredconstant)
+//@   meaning p2[k] < modulus && cong(p2[k], old(p1[k]), modulus)
+
+//@ func reducelazyvec
+//@   property C01
+//@   veckernel out=p2 in=p1 idx=j
+//@   requires bredpre(modulus, bredconstant[0], bredconstant[1])
+//@   lane p2[k] == BRedAddLazy(old(p1[k]), modulus, bredconstant)
+//@   meaning p2[k] < 2*modulus && cong(p2[k], old(p1[k]), modulus)
+
+//@ func mulcoeffslazyvec
+//@   property C01
+//@   veckernel out=p3 in=p1,p2 idx=j
+//@   lanepre p1[k] * p2[k] < W
+//@   lane p3[k] == old(p1[k]) * old(p2[k])
+
+//@ func mulcoeffslazythenaddlazyvec
+//@   property C01
+//@   veckernel out=p3 in=p1,p2 idx=j
+//@   lanepre p3[k] + p1[k] * p2[k] < W
+//@   lane p3[k] == old(p3[k]) + old(p1[k]) * old(p2[k])
+
+//@ func mulcoeffsbarrettvec
+//@   property C01
+//@   veckernel out=p3 in=p1,p2 idx=j
+//@   requires bredpre(modulus, bredconstant[0], bredconstant[1])
+//@   lane p3[k] == BRed(old(p1[k]), old(p2[k]), modulus, bredconstant)
+//@   meaning p3[k] < modulus && cong(p3[k], old(p1[k]) * old(p2[k]), modulus)
+
+//@ func mulcoeffsbarrettlazyvec
+//@   property C01
+//@   veckernel out=p3 in=p1,p2 idx=j
+//@   requires bredpre(modulus, bredconstant[0], bredconstant[1])
+//@   lane p3[k] == BRedLazy(old(p1[k]), old(p2[k]), modulus, bredconstant)
+//@   meaning p3[k] < 2*modulus && cong(p3[k], old(p1[k]) * old(p2[k]), modulus)
+
+//@ func mulcoeffsthenaddvec
+//@   property C01
+//@   veckernel out=p3 in=p1,p2 idx=j
+//@   requires bredpre(modulus, bredconstant[0], bredconstant[1])
+//@   let x = old(p1[k])
+//@   let y = old(p2[k])
+//@   let z = old(p3[k])
+//@   let m = BRed(x, y, modulus, bredconstant)
+//@   lanepre p3[k] <= modulus
+//@   lane p3[k] == CRed(old(p3[k]) + BRed(old(p1[k]), old(p2[k]), modulus, bredconstant), modulus)
+//@   meaning p3[k] < modulus && cong(p3[k], z + x*y, modulus) by cong_refl(z, modulus); cong_add(z, z, m, x*y, modulus); cong_shift(z + m, z + x*y, ite(z + m >= modulus, 0-1, 0), modulus)
+
+//@ func mulcoeffsbarrettthenaddlazyvec
+//@   property C01
+//@   veckernel out=p3 in=p1,p2 idx=j
+//@   requires bredpre(modulus, bredconstant[0], bredconstant[1])
+//@   let x = old(p1[k])
+//@   let y = old(p2[k])
+//@   let z = old(p3[k])
+//@   let m = BRed(x, y, modulus, bredconstant)
+//@   lanepre p3[k] + modulus <= W
+//@   lane p3[k] == old(p3[k]) + BRed(old(p1[k]), old(p2[k]), modulus, bredconstant)
+//@   meaning p3[k] < z + modulus && cong(p3[k], z + x*y, modulus) by cong_refl(z, modulus); cong_add(z, z, m, x*y, modulus)
+
+//@ func mulcoeffsmontgomeryvec
+//@   property C01
+//@   veckernel out=p3 in=p1,p2 idx=j
+//@   requires mredpre(modulus, mredconstant)
+//@   lanepre p1[k] * p2[k] < modulus * W
+//@   lane p3[k] == MRed(old(p1[k]), old(p2[k]), modulus, mredconstant)
+//@   meaning p3[k] < modulus && cong(p3[k]*W, old(p1[k]) * old(p2[k]), modulus)
+
+//@ func mulcoeffsmontgomerylazyvec
+//@   property C01
+//@   veckernel out=p3 in=p1,p2 idx=j
+//@   requires mredpre(modulus, mredconstant)
+//@   lanepre p1[k] * p2[k] < modulus * W
+//@   lane p3[k] == MRedLazy(old(p1[k]), old(p2[k]), modulus, mredconstant)
+//@   meaning 0 < p3[k] && p3[k] < 2*modulus && cong(p3[k]*W, old(p1[k]) * old(p2[k]), modulus)
+
+//@ func mulcoeffsmontgomerythenaddvec
+//@   property C01
+//@   veckernel out=p3 in=p1,p2 idx=j
+//@   requires mredpre(modulus, mredconstant)
+//@   let x = old(p1[k])
+//@   let y = old(p2[k])
+//@   let z = old(p3[k])
+//@   let m = MRed(x, y, modulus, mredconstant)
+//@   lanepre p3[k] <= modulus && p1[k] * p2[k] < modulus * W
+//@   lane p3[k] == CRed(old(p3[k]) + MRed(old(p1[k]), old(p2[k]), modulus, mredconstant), modulus)
+//@   meaning p3[k] < modulus && cong(p3[k]*W, z*W + x*y, modulus) by cong_refl(z*W, modulus); cong_add(z*W, z*W, m*W, x*y, modulus); cong_shift(z*W + m*W, z*W + x*y, ite(z + m >= modulus, 0-W, 0), modulus)
+
+//@ func mulcoeffsmontgomerythenaddlazyvec
+//@   property C01
+//@   veckernel out=p3 in=p1,p2 idx=j
+//@   requires mredpre(modulus, mredconstant)
+//@   let x = old(p1[k])
+//@   let y = old(p2[k])
+//@   let z = old(p3[k])
+//@   let m = MRed(x, y, modulus, mredconstant)
+//@   lanepre p3[k] + modulus <= W && p1[k] * p2[k] < modulus * W
+//@   lane p3[k] == old(p3[k]) + MRed(old(p1[k]), old(p2[k]), modulus, mredconstant)
+//@   meaning p3[k] < z + modulus && cong(p3[k]*W, z*W + x*y, modulus) by cong_refl(z*W, modulus); cong_add(z*W, z*W, m*W, x*y, modulus)
+
+//@ func mulcoeffsmontgomerylazythenaddlazyvec
+//@   property C01
+//@   veckernel out=p3 in=p1,p2 idx=j
+//@   requires mredpre(modulus, mredconstant)
+//@   let x = old(p1[k])
+//@   let y = old(p2[k])
+//@   let z = old(p3[k])
+//@   let m = MRedLazy(x, y, modulus, mredconstant)
+//@   lanepre p3[k] + 2*modulus <= W && p1[k] * p2[k] < modulus * W
+//@   lane p3[k] == old(p3[k]) + MRedLazy(old(p1[k]), old(p2[k]), modulus, mredconstant)
+//@   meaning p3[k] < z + 2*modulus && cong(p3[k]*W, z*W + x*y, modulus) by cong_refl(z*W, modulus); cong_add(z*W, z*W, m*W, x*y, modulus)
+
+//@ func mulcoeffsmontgomerythensubvec
+//@   property C01
+//@   veckernel out=p3 in=p1,p2 idx=j
+//@   requires mredpre(modulus, mredconstant)
+//@   let x = old(p1[k])
+//@   let y = old(p2[k])
+//@   let z = old(p3[k])
+//@   let m = MRed(x, y, modulus, mredconstant)
+//@   lanepre p3[k] < modulus && p1[k] * p2[k] < modulus * W
+//@   lane p3[k] == CRed(old(p3[k]) + (modulus - MRed(old(p1[k]), old(p2[k]), modulus, mredconstant)), modulus)
+//@   meaning p3[k] < modulus && cong(p3[k]*W, z*W - x*y, modulus) by cong_refl(z*W, modulus); cong_sub(z*W, z*W, m*W, x*y, modulus); cong_shift(z*W - m*W, z*W - x*y, ite(z + modulus - m >= modulus, 0, W), modulus)
+
+//@ func mulcoeffsmontgomerythensublazyvec
+//@   property C01
+//@   veckernel out=p3 in=p1,p2 idx=j
+//@   requires mredpre(modulus, mredconstant)
+//@   let x = old(p1[k])
+//@   let y = old(p2[k])
+//@   let z = old(p3[k])
+//@   let m = MRed(x, y, modulus, mredconstant)
+//@   lanepre p3[k] + modulus < W && p1[k] * p2[k] < modulus * W
+//@   lane p3[k] == old(p3[k]) + (modulus - MRed(old(p1[k]), old(p2[k]), modulus, mredconstant))
+//@   meaning p3[k] <= z + modulus && cong(p3[k]*W, z*W - x*y, modulus) by cong_refl(z*W, modulus); cong_sub(z*W, z*W, m*W, x*y, modulus); cong_shift(z*W - m*W, z*W - x*y, W, modulus)
+
+//@ func mulcoeffsmontgomerylazythensublazyvec
+//@   property C01
+//@   veckernel out=p3 in=p1,p2 idx=j
+//@   requires mredpre(modulus, mredconstant)
+//@   let x = old(p1[k])
+//@   let y = old(p2[k])
+//@   let z = old(p3[k])
+//@   let m = MRedLazy(x, y, modulus, mredconstant)
+//@   lanepre p3[k] + 2*modulus <= W && p1[k] * p2[k] < modulus * W
+//@   lane p3[k] == old(p3[k]) + (2*modulus - MRedLazy(old(p1[k]), old(p2[k]), modulus, mredconstant))
+//@   meaning p3[k] < z + 2*modulus && cong(p3[k]*W, z*W - x*y, modulus) by cong_refl(z*W, modulus); cong_sub(z*W, z*W, m*W, x*y, modulus); cong_shift(z*W - m*W, z*W - x*y, 2*W, modulus)
+
+//@ func mulcoeffsmontgomerylazythenNegvec
+//@   property C01
+//@   veckernel out=p3 in=p1,p2 idx=j
+//@   requires mredpre(modulus, mredconstant)
+//@   let x = old(p1[k])
+//@   let y = old(p2[k])
+//@   let m = MRedLazy(x, y, modulus, mredconstant)
+//@   lanepre p1[k] * p2[k] < modulus * W
+//@   lane p3[k] == 2*modulus - MRedLazy(old(p1[k]), old(p2[k]), modulus, mredconstant)
+//@   meaning 0 < p3[k] && p3[k] < 2*modulus && cong(p3[k]*W, 0 - x*y, modulus) by cong_neg(m*W, x*y, modulus); cong_shift(0 - m*W, 0 - x*y, 2*W, modulus)
+
+//@ func addlazythenmulscalarmontgomeryvec
+//@   property C01
+//@   veckernel out=p3 in=p1,p2 idx=j
+//@   requires mredpre(modulus, mredconstant)
+//@   lanepre p1[k] + p2[k] < W && (p1[k] + p2[k]) * scalarMont < modulus * W
+//@   lane p3[k] == MRed(old(p1[k]) + old(p2[k]), scalarMont, modulus, mredconstant)
+//@   meaning p3[k] < modulus && cong(p3[k]*W, (old(p1[k]) + old(p2[k])) * scalarMont, modulus)
+
+//@ func addscalarlazythenmulscalarmontgomeryvec
+//@   property C01
+//@   veckernel out=p2 in=p1 idx=j
+//@   requires mredpre(modulus, mredconstant)
+//@   lanepre p1[k] + scalar0 < W && (p1[k] + scalar0) * scalarMont1 < modulus * W
+//@   lane p2[k] == MRed(old(p1[k]) + scalar0, scalarMont1, modulus, mredconstant)
+//@   meaning p2[k] < modulus && cong(p2[k]*W, (old(p1[k]) + scalar0) * scalarMont1, modulus)
+
+//@ func addscalarvec
+//@   property C01
+//@   veckernel out=p2 in=p1 idx=j
+//@   requires 0 < modulus && modulus < 1<<63
+//@   let x = old(p1[k])
+//@   lanepre p1[k] + scalar < 2*modulus
+//@   lane p2[k] == CRed(old(p1[k]) + scalar, modulus)
+//@   meaning p2[k] < modulus && cong(p2[k], x + scalar, modulus) by cong_intro(p2[k], x + scalar, ite(x + scalar >= modulus, 0-1, 0), modulus)
+
+//@ func addscalarlazyvec
+//@   property C01
+//@   veckernel out=p2 in=p1 idx=j
+//@   lanepre p1[k] + scalar < W
+//@   lane p2[k] == old(p1[k]) + scalar
+
+//@ func addscalarlazythenNegTwoModuluslazyvec
+//@   property C01
+//@   veckernel out=p2 in=p1 idx=j
+//@   requires modulus < 1<<63
+//@   let x = old(p1[k])
+//@   lanepre p1[k] <= scalar + 2*modulus && scalar + 2*modulus - p1[k] < W
+//@   lane p2[k] == scalar + 2*modulus - old(p1[k])
+//@   meaning cong(p2[k], scalar - x, modulus) by cong_intro(p2[k], scalar - x, 2, modulus)
+
+//@ func subscalarvec
+//@   property C01
+//@   veckernel out=p2 in=p1 idx=j
+//@   requires 0 < modulus && modulus < 1<<63
+//@   let x = old(p1[k])
+//@   lanepre scalar <= p1[k] + modulus && p1[k] + modulus - scalar < 2*modulus
+//@   lane p2[k] == CRed(old(p1[k]) + modulus - scalar, modulus)
+//@   meaning p2[k] < modulus && cong(p2[k], x - scalar, modulus) by cong_intro(p2[k], x - scalar, ite(x + modulus - scalar >= modulus, 0, 1), modulus)
+
+//@ func mulscalarmontgomeryvec
+//@   property C01
+//@   veckernel out=p2 in=p1 idx=j
+//@   requires mredpre(modulus, mredconstant)
+//@   lanepre p1[k] * scalarMont < modulus * W
+//@   lane p2[k] == MRed(old(p1[k]), scalarMont, modulus, mredconstant)
+//@   meaning p2[k] < modulus && cong(p2[k]*W, old(p1[k]) * scalarMont, modulus)
+
+//@ func mulscalarmontgomerylazyvec
+//@   property C01
+//@   veckernel out=p2 in=p1 idx=j
+//@   requires mredpre(modulus, mredconstant)
+//@   lanepre p1[k] * scalarMont < modulus * W
+//@   lane p2[k] == MRedLazy(old(p1[k]), scalarMont, modulus, mredconstant)
+//@   meaning 0 < p2[k] && p2[k] < 2*modulus && cong(p2[k]*W, old(p1[k]) * scalarMont, modulus)
+
+//@ func mulscalarmontgomerythenaddvec
+//@   property C01
+//@   veckernel out=p2 in=p1 idx=j
+//@   requires mredpre(modulus, mredconstant)
+//@   let x = old(p1[k])
+//@   let z = old(p2[k])
+//@   let m = MRed(x, scalarMont, modulus, mredconstant)
+//@   lanepre p2[k] <= modulus && p1[k] * scalarMont < modulus * W
+//@   lane p2[k] == CRed(old(p2[k]) + MRed(old(p1[k]), scalarMont, modulus, mredconstant), modulus)
+//@   meaning p2[k] < modulus && cong(p2[k]*W, z*W + x*scalarMont, modulus) by cong_refl(z*W, modulus); cong_add(z*W, z*W, m*W, x*scalarMont, modulus); cong_shift(z*W + m*W, z*W + x*scalarMont, ite(z + m >= modulus, 0-W, 0), modulus)
+
+//@ func mulscalarmontgomerythenaddscalarvec
+//@   property C01
+//@   veckernel out=p2 in=p1 idx=j
+//@   requires mredpre(modulus, mredconstant)
+//@   let x = old(p1[k])
+//@   let m = MRed(x, scalarMont1, modulus, mredconstant)
+//@   requires scalar0 <= modulus
+//@   lanepre p1[k] * scalarMont1 < modulus * W
+//@   lane p2[k] == CRed(MRed(old(p1[k]), scalarMont1, modulus, mredconstant) + scalar0, modulus)
+//@   meaning p2[k] < modulus && cong(p2[k]*W, x*scalarMont1 + scalar0*W, modulus) by cong_refl(scalar0*W, modulus); cong_add(m*W, x*scalarMont1, scalar0*W, scalar0*W, modulus); cong_shift(m*W + scalar0*W, x*scalarMont1 + scalar0*W, ite(m + scalar0 >= modulus, 0-W, 0), modulus)
+
+//@ func subthenmulscalarmontgomeryTwoModulusvec
+//@   property C01
+//@   veckernel out=p3 in=p1,p2 idx=j
+//@   requires mredpre(modulus, mredconstant)
+//@   let x = old(p1[k])
+//@   let y = old(p2[k])
+//@   lanepre p2[k] <= 2*modulus + p1[k] && 2*modulus - p2[k] + p1[k] < W && (2*modulus - p2[k] + p1[k]) * scalarMont < modulus * W
+//@   lane p3[k] == MRed(2*modulus - old(p2[k]) + old(p1[k]), scalarMont, modulus, mredconstant)
+//@   meaning p3[k] < modulus && cong(p3[k]*W, (x - y)*scalarMont, modulus) by cong_shift_r(p3[k]*W, (2*modulus - y + x)*scalarMont, 0 - 2*scalarMont, modulus)
+
+//@ func mformvec
+//@   property C01
+//@   veckernel out=p2 in=p1 idx=j
+//@   requires bredpre(modulus, bredconstant[0], bredconstant[1])
+//@   lane p2[k] == MForm(old(p1[k]), modulus, bredconstant)
+//@   meaning p2[k] < modulus && cong(p2[k], old(p1[k])*W, modulus)
+
+//@ func mformlazyvec
+//@   property C01
+//@   veckernel out=p2 in=p1 idx=j
+//@   requires bredpre(modulus, bredconstant[0], bredconstant[1])
+//@   lane p2[k] == MFormLazy(old(p1[k]), modulus, bredconstant)
+//@   meaning p2[k] < 2*modulus && cong(p2[k], old(p1[k])*W, modulus)
+
+//@ func imformvec
+//@   property C01
+//@   veckernel out=p2 in=p1 idx=j
+//@   requires mredpre(modulus, mredconstant)
+//@   lane p2[k] == IMForm(old(p1[k]), modulus, mredconstant)
+//@   meaning p2[k] < modulus && cong(p2[k]*W, old(p1[k]), modulus)
+
+//@ func ZeroVec
+//@   property C01
+//@   veckernel out=p1 in=p1 idx=j
+//@   lane p1[k] == 0
